@@ -26,6 +26,9 @@ CHECKS = {
  "C13": dict(level="exploration", technique="property-based testing (proptest): generated notes with multi-byte text and CRLF, position probes derived from an independent offset-tracking scan and own UTF-16 line table",
    text="For every link of a generated note the harness computes the LSP span from byte offsets with its own line table and probes inside / outside positions: definition and prepare-rename must act exactly inside, go to the resolved note, return the destination range; symbol lines must be heading lines.",
    note="Boundary positions of a span are not judged; single-line links only.", ref="7/C13"),
+ "C17": dict(level="exploration", technique="property-based testing (proptest): generated reference graphs (trees, sharing, cycles, self-loops, dangling), own recursive expansion model compared with Graph::squash modulo sibling order, token-multiplicity check on the exported text, watchdog for termination",
+   text="For generated libraries and depths 0-6 (up to 255 on chains and self-loops) the squashed tree must equal the harness's own depth-bounded expansion of the notes' trees modulo sibling order, and the rebuilt, exported text must contain every word token with the predicted multiplicity.",
+   note="The notes' own section structure is taken from Graph::collect (C07 judges it); the expansion recursion is the harness's own.", ref="7/C17"),
  "C20": dict(level="exploration", technique="property-based testing (proptest): generated histories of imports, updates, insertions and patch-graph constructions with an external forest-invariant walker after every step",
    text="After every step of a generated history an external walker over nodes()/graph_node()/keys()/NodePointer checks: roots are documents, DFS visits every live node exactly once, prev pointers match, navigation answers agree with ownership, walk order equals the scanned block order, ids only grow, other notes' nodes are untouched.",
    note="Invariant over the history; the order check skips blocks without a text line.", ref="7/C20"),
